@@ -223,7 +223,15 @@ where
                     // TODO: require source to be a BufRead
                     // let read = fill_buffer_bytes(source, buffer, Self::buffer_size())?;
                     buffer.resize(Self::buffer_size(), 0);
-                    let read = fill_buffer(source, buffer, None)?;
+                    let read = match fill_buffer(source, buffer, None) {
+                        Ok(read) => read,
+                        Err(err) => {
+                            // `buffer` holds unencrypted leftovers, and what was already
+                            // pulled from the source is lost: never hand anything out again
+                            *self = Self::Unknown;
+                            return Err(err);
+                        }
+                    };
                     if read < buffer.len() {
                         // done reading
                         // shorten buffer accordingly
@@ -255,7 +263,8 @@ where
                 return Ok(());
             }
             Self::Unknown => {
-                panic!("encryption panicked");
+                // a previous call failed while reading from the source
+                return Err(std::io::Error::other("encryptor is in error state"));
             }
         };
 
